@@ -342,6 +342,18 @@ func VerifH06b() {
 	if vParam("X", 0) > 0 {
 		menu = 12 // also unknown-type and oversized messages, Describe/Close of an unknown kind
 	}
+	// TRUNC=1: the body of a Parse/Bind/Describe/Execute/Close may lack its last
+	// byte (an unterminated name, half a count): such a message fails — the
+	// connection ends, or it is answered by one ErrorResponse and the rest of the
+	// cycle is discarded; it is never answered by a ReadyForQuery of its own
+	trunc := make([]bool, K)
+	add := func(i int, t byte, body []byte) {
+		if vParam("TRUNC", 0) > 0 && nondetBool() {
+			body = body[:len(body)-1]
+			trunc[i] = true
+		}
+		input = append(input, vMsgBytes(t, body)...)
+	}
 	for i := 0; i < K; i++ {
 		kinds[i] = vChoose(menu)
 		switch kinds[i] {
@@ -349,11 +361,17 @@ func VerifH06b() {
 			a1[i] = vChoose(2)
 			q := []byte{nondetByte()}
 			vAssume(q[0] != 0)
-			input = append(input, vMsgBytes('P', vCat(vCStr([]byte(vNames(a1[i]))), vCStr(q), vU16(0)))...)
+			add(i, 'P', vCat(vCStr([]byte(vNames(a1[i]))), vCStr(q), vU16(0)))
 		case 1: // Bind portal, statement
 			a1[i] = vChoose(2)
 			a2[i] = vChoose(2)
-			input = append(input, vMsgBytes('B', vCat(vCStr([]byte(vNames(a1[i]))), vCStr([]byte(vNames(a2[i]))), vU16(0), vU16(0), vU16(0)))...)
+			// no result-format code, or one (text or binary) that applies to all
+			// result columns — however many the statement has, none included
+			rf := vU16(0)
+			if nondetBool() {
+				rf = vCat(vU16(1), vU16(vChoose(2)))
+			}
+			add(i, 'B', vCat(vCStr([]byte(vNames(a1[i]))), vCStr([]byte(vNames(a2[i]))), vU16(0), vU16(0), rf))
 		case 2: // Describe kind, name
 			a1[i] = vChoose(2)
 			a2[i] = vChoose(2)
@@ -361,13 +379,13 @@ func VerifH06b() {
 			if a1[i] == 1 {
 				kind = 'P'
 			}
-			input = append(input, vMsgBytes('D', vCat([]byte{kind}, vCStr([]byte(vNames(a2[i])))))...)
+			add(i, 'D', vCat([]byte{kind}, vCStr([]byte(vNames(a2[i])))))
 		case 3: // Execute portal
 			a1[i] = vChoose(2)
 			// the row limit: "no limit" or any limit the statement's single row stays under
 			lim := nondetU32()
 			vAssume(vOr(lim == 0, lim >= 2))
-			input = append(input, vMsgBytes('E', vCat(vCStr([]byte(vNames(a1[i]))), vU32(lim)))...)
+			add(i, 'E', vCat(vCStr([]byte(vNames(a1[i]))), vU32(lim)))
 		case 4: // Close kind, name
 			a1[i] = vChoose(2)
 			a2[i] = vChoose(2)
@@ -375,7 +393,7 @@ func VerifH06b() {
 			if a1[i] == 1 {
 				kind = 'P'
 			}
-			input = append(input, vMsgBytes('C', vCat([]byte{kind}, vCStr([]byte(vNames(a2[i])))))...)
+			add(i, 'C', vCat([]byte{kind}, vCStr([]byte(vNames(a2[i])))))
 		case 5:
 			input = append(input, vMsgBytes('H', nil)...)
 		case 6:
@@ -423,6 +441,17 @@ func VerifH06b() {
 				execs++
 				ran = w.stmts[e.id]
 			}
+		}
+		if trunc[i] && !ref.skip {
+			// a malformed message: the connection ends, or one ErrorResponse and skip
+			vAssert("malformed-message-no-callback", parses == 0 && execs == 0)
+			if err != nil {
+				vReach("malformed-message-ends-the-connection")
+				return
+			}
+			vAssert("malformed-message-one-ErrorResponse-no-ReadyForQuery", got == "E")
+			ref.skip = true
+			continue
 		}
 		vAssert("connection-stays-up", err == nil)
 		if err != nil {
